@@ -393,9 +393,23 @@ def _r19_2(run: Run, res: Resolver) -> None:
         if not ok_walk:
             run.violation("R19.2", mod, qual, "per-component symlink walk", "validator has no loop over the path's components that rejects a symlink")
         sfx = f["suffix"]
-        ok_sfx = bool(sfx) and all(s == EXPECTED_SUFFIXES for _, s in sfx)
-        run.instance("R19.2", where, f"{qual}: allowed suffix set {sorted(sfx[0][1]) if sfx else None}", ok=ok_sfx)
-        if not ok_sfx:
+        helper_gate = None
+        if not sfx:
+            # no `x in ALLOWED` comparison in the validator itself: the extension test may live in a helper the validator calls
+            # in a test (a function of another module is not read in place). It is summarised, or the clause is not decided.
+            helper_gate = _suffix_helper_gate(run, res, mod, fi, cfg)
+        if helper_gate is not None:
+            hcall, hallowed, hextra, hname = helper_gate
+            ok_sfx = hallowed == EXPECTED_SUFFIXES and not hextra
+            run.instance("R19.2", where, f"{qual}: extension test through {hname}: candidates {{last suffix, last two joined}}{' + ' + ', '.join(hextra) if hextra else ''} against {sorted(hallowed) if hallowed is not None else '?'}", ok=ok_sfx)
+            if hextra:
+                run.violation("R19.2", mod, qual, f"{hname}: candidate suffixes", f"the extension test {hname} accepts a name when {' or '.join(hextra)} is an allowed extension: `deploy.md.sh` / `settings.octave.py` pass although the file's extension is not .oct.md, .octave or .md")
+            elif not ok_sfx:
+                run.violation("R19.2", mod, qual, "allowed suffix set", f"suffix allow-list is {sorted(hallowed) if hallowed is not None else None} but the documented set is {sorted(EXPECTED_SUFFIXES)}")
+        else:
+          ok_sfx = bool(sfx) and all(s == EXPECTED_SUFFIXES for _, s in sfx)
+          run.instance("R19.2", where, f"{qual}: allowed suffix set {sorted(sfx[0][1]) if sfx else None}", ok=ok_sfx)
+          if not ok_sfx:
             run.violation("R19.2", mod, qual, "allowed suffix set", f"suffix allow-list is {[sorted(s) for _, s in sfx]} but the documented set is {sorted(EXPECTED_SUFFIXES)}")
         # every success return dominated by all three checks, on their passing edge
         for sn in succ:
@@ -414,6 +428,17 @@ def _r19_2(run: Run, res: Resolver) -> None:
                         guard_tests.append(par.test)
                     else:
                         problems.append("symlink walk")
+            if helper_gate is not None:
+                hc = helper_gate[0]
+                held = False
+                for t, val in conds:
+                    tt, v = t, val
+                    while isinstance(tt, ast.UnaryOp) and isinstance(tt.op, ast.Not):
+                        tt, v = tt.operand, not v
+                    if tt is hc and v:
+                        held = True
+                if not held:
+                    problems.append("suffix check")
             if sfx:
                 # success must be reached only when a suffix membership test passed
                 passed = False
@@ -478,6 +503,153 @@ def _decides(t: ast.AST, cmp_node: ast.Compare, val: bool) -> bool:
         if isinstance(t.op, ast.And) and not notin and val is True:
             return True  # (a in A and ...) true => a in A
     return False
+
+
+def _suffix_helper_gate(run: Run, res: Resolver, mod, fi, cfg: CFG):
+    """(call node, allowed set, extra candidates, helper name) for an extension test made by a helper function called in a test
+    of the validator; AnalysisError when there is such a call but the helper is not in a form this check reads; None when
+    the validator has no such call at all"""
+    cands = []
+    for n in cfg.nodes:
+        if n.kind != "test" or n.ast is None:
+            continue
+        t = n.ast
+        while isinstance(t, ast.UnaryOp) and isinstance(t.op, ast.Not):
+            t = t.operand
+        if isinstance(t, ast.Call) and isinstance(t.func, (ast.Name, ast.Attribute)) and ("ext" in ast.unparse(t.func).lower() or "suffix" in ast.unparse(t.func).lower()):
+            cands.append(t)
+    inline_test = None
+    if not cands:
+        # the same decision written in the validator itself (a same-module helper is read in place)
+        inline_holder = None
+        for n in cfg.nodes:
+            if n.kind != "test" or n.ast is None or "suffix" not in ast.unparse(fi.node):
+                continue
+            t0 = n.ast
+            while isinstance(t0, ast.UnaryOp) and isinstance(t0.op, ast.Not):
+                t0 = t0.operand
+            expr = t0
+            if isinstance(t0, ast.Name):
+                defs = [a.value for a in walk_no_nested(fi.node) if isinstance(a, ast.Assign) and len(a.targets) == 1 and isinstance(a.targets[0], ast.Name) and a.targets[0].id == t0.id]
+                if len(defs) == 1:
+                    expr = defs[0]
+            if any((isinstance(c, ast.Attribute) and c.attr == "isdisjoint") or (isinstance(c, ast.BinOp) and isinstance(c.op, ast.BitAnd)) for c in ast.walk(expr)):
+                inline_test, inline_holder = expr, t0
+                break
+        if inline_test is None:
+            return None
+    if inline_test is not None:
+        call = inline_holder
+        fname = fi.qualname
+        hm, hfi = mod, fi
+        sx = next((c for c in walk_no_nested(fi.node) if isinstance(c, ast.Attribute) and c.attr in ("suffixes", "suffix") and isinstance(c.value, ast.Name)), None)
+        ppath = sx.value.id if sx is not None else None  # type: ignore[union-attr]
+        allowed = None
+        for c in ast.walk(inline_test):
+            if isinstance(c, ast.Call) and isinstance(c.func, ast.Attribute) and c.func.attr == "isdisjoint" and c.args:
+                for e in (c.args[0], c.func.value):
+                    v = run.project.try_fold(mod, e)
+                    if isinstance(v, (set, frozenset, tuple, list)) and v:
+                        allowed = frozenset(v)
+        if allowed is None:
+            raise AnalysisError(f"{fi.qualname}: the allow-list of the extension test does not fold to a constant set; the suffix clause is not decided")
+    else:
+      call = cands[0]
+      fname = call.func.id if isinstance(call.func, ast.Name) else call.func.attr  # type: ignore[union-attr]
+      target = None
+      for m in run.project.modules.values():
+        if m.has_func(fname) and "." not in fname:
+            target = (m, m.func(fname))
+            if m is mod:
+                break
+      if target is None:
+        raise AnalysisError(f"{fi.qualname}: the extension test is made by `{fname}(...)`, which is not a function of the package this check can read; the suffix clause is not decided")
+      hm, hfi = target
+      params = [a.arg for a in hfi.node.args.args]  # type: ignore[attr-defined]
+      defaults = hfi.node.args.defaults  # type: ignore[attr-defined]
+      ppath = params[0] if params else None
+      # the allowed set: second argument at the call site, else the parameter's default
+      allowed_expr, allowed_mod = None, hm
+      if len(call.args) >= 2:
+        allowed_expr, allowed_mod = call.args[1], mod
+      elif len(params) >= 2 and defaults:
+        allowed_expr = defaults[-1]
+      allowed = None
+      if allowed_expr is not None:
+        txt = ast.unparse(allowed_expr)
+        if txt.startswith("self.") and fi.qualname.split(".")[0] in allowed_mod.classes:
+            cls = allowed_mod.classes[fi.qualname.split(".")[0]].node
+            for st in cls.body:
+                if isinstance(st, (ast.Assign, ast.AnnAssign)) and any(isinstance(tg, ast.Name) and tg.id == txt[5:] for tg in (st.targets if isinstance(st, ast.Assign) else [st.target])) and st.value is not None:
+                    v = run.project.try_fold(allowed_mod, st.value)
+                    allowed = frozenset(v) if isinstance(v, (set, frozenset, tuple, list)) else None
+        else:
+            v = run.project.try_fold(allowed_mod, allowed_expr)
+            allowed = frozenset(v) if isinstance(v, (set, frozenset, tuple, list)) else None
+      if allowed is None:
+        raise AnalysisError(f"{fi.qualname}: the allow-list handed to `{fname}` does not fold to a constant set; the suffix clause is not decided")
+
+    def local(e: ast.AST, depth: int = 0) -> ast.AST:
+        if isinstance(e, ast.Name) and depth < 4:
+            defs = [a.value for a in walk_no_nested(hfi.node) if isinstance(a, (ast.Assign, ast.AnnAssign)) and a.value is not None and any(isinstance(tg, ast.Name) and tg.id == e.id for tg in (a.targets if isinstance(a, ast.Assign) else [a.target]))]
+            if len(defs) == 1:
+                return local(defs[0], depth + 1)
+        return e
+
+    def kind(e: ast.AST) -> list[str] | None:
+        e = local(e)
+        txt = ast.unparse(e)
+        if txt in (f"{ppath}.suffix", f"{ppath}.suffixes[-1]"):
+            return []
+        if txt == f"{ppath}.suffixes[-2]":
+            return ["the second-to-last suffix on its own"]
+        if isinstance(e, ast.Call) and isinstance(e.func, ast.Attribute) and e.func.attr == "join" and isinstance(e.func.value, ast.Constant) and e.func.value.value == "" and len(e.args) == 1 and ast.unparse(local(e.args[0])) == f"{ppath}.suffixes[-2:]":
+            return []
+        if isinstance(e, ast.Starred):
+            inner = ast.unparse(local(e.value))
+            if inner == f"{ppath}.suffixes[-2:]":
+                return ["the second-to-last suffix on its own"]
+            if inner == f"{ppath}.suffixes":
+                return ["any inner suffix on its own"]
+            return None
+        if isinstance(e, ast.IfExp):
+            a, b = kind(e.body), kind(e.orelse)
+            return None if a is None or b is None else a + b
+        return None
+
+    if inline_test is not None:
+        r = inline_test
+    else:
+        rets = [r for r in walk_no_nested(hfi.node) if isinstance(r, ast.Return)]
+        if len(rets) != 1 or rets[0].value is None:
+            raise AnalysisError(f"{fname}: more than one return; the extension helper is not in a form this check reads (suffix clause not decided)")
+        r = local(rets[0].value)
+    neg = False
+    while isinstance(r, ast.UnaryOp) and isinstance(r.op, ast.Not):
+        r, neg = r.operand, not neg
+    coll = None
+    if isinstance(r, ast.Call) and isinstance(r.func, ast.Attribute) and r.func.attr == "isdisjoint" and neg and len(r.args) == 1:
+        a, b = local(r.func.value), local(r.args[0])
+        coll = a if isinstance(a, (ast.Set, ast.Tuple, ast.List)) else (b if isinstance(b, (ast.Set, ast.Tuple, ast.List)) else None)
+    elif isinstance(r, ast.Call) and isinstance(r.func, ast.Name) and r.func.id in ("bool", "any") and not neg and r.args:
+        inner = local(r.args[0])
+        if isinstance(inner, ast.BinOp) and isinstance(inner.op, ast.BitAnd):
+            a, b = local(inner.left), local(inner.right)
+            coll = a if isinstance(a, (ast.Set, ast.Tuple, ast.List)) else (b if isinstance(b, (ast.Set, ast.Tuple, ast.List)) else None)
+        elif isinstance(inner, ast.GeneratorExp) and len(inner.generators) == 1 and isinstance(inner.elt, ast.Compare) and isinstance(inner.elt.ops[0], ast.In):
+            c0 = local(inner.generators[0].iter)
+            coll = c0 if isinstance(c0, (ast.Set, ast.Tuple, ast.List)) else None
+    elif isinstance(r, ast.BoolOp) and isinstance(r.op, ast.Or) and not neg and all(isinstance(v, ast.Compare) and len(v.ops) == 1 and isinstance(v.ops[0], ast.In) for v in r.values):
+        coll = ast.Tuple(elts=[v.left for v in r.values], ctx=ast.Load())  # type: ignore[attr-defined]
+    if coll is None:
+        raise AnalysisError(f"{fname}: the extension helper does not decide by `candidates ∩ allowed ≠ ∅` over a display of candidate suffixes (isdisjoint / & / any(... in ...) / `a in A or b in A`); the suffix clause is not decided")
+    extra: list[str] = []
+    for el in coll.elts:
+        k = kind(el)
+        if k is None:
+            raise AnalysisError(f"{fname}: candidate `{ast.unparse(el)[:60]}` is not the last suffix, the last two suffixes joined, or a slice of them; the suffix clause is not decided")
+        extra += [x for x in k if x not in extra]
+    return call, allowed, extra, fname
 
 
 def _suffix_gate(cfg: CFG, sn: int, sfx) -> bool:
